@@ -74,3 +74,23 @@ Proof.
     - exists None. apply Hn. intros H. apply Hb in H. discriminate. }
   apply (run_queries_pure i s b mk qs Eb Emk). apply cache0_ok.
 Qed.
+
+(* What an accepted result object holds: `result.schedule[j]` is, for every job of the instance, the row the caller
+   passed under that job, it wraps exactly that job's operations in order, every key the caller passed reads back
+   its own row, and the valid-schedule accessor hands out that same mapping. *)
+Lemma stored_schedule_matches i s :
+  result_ok i s = true -> keys_nodup s ->
+  (forall j, In j (inst_jobs i) ->
+     exists row, schedule_of_job i s j = Some row /\ map fst row = job_ops j /\ In (j, row) s) /\
+  (forall kv, In kv s -> schedule_of_job i s (fst kv) = Some (snd kv) /\ In (fst kv) (inst_jobs i)) /\
+  (forall s', valid_schedule_impl i s = Ok s' -> s' = s).
+Proof.
+  intros Hres Hnd. pose proof Hres as Hspec. apply result_ok_spec in Hspec as [H1 [H2 H3]]. repeat split.
+  - intros j Hj. destruct (H3 j Hj) as [row [Hl Hops]]. exists row. repeat split; try assumption.
+    apply H1 in Hj. apply in_map_iff in Hj as [[j' row'] [Ej Hin]]. simpl in Ej. subst j'.
+    pose proof (sched_lookup_own s (j, row') Hnd Hin) as Hown. simpl in Hown.
+    unfold schedule_of_job, stored_schedule in *. rewrite Hown in Hl. inversion Hl; subst. exact Hin.
+  - apply sched_lookup_own; assumption.
+  - apply H2; assumption.
+  - intros s'. unfold valid_schedule_impl. destruct (is_valid_impl i s) as [[|]|e]; simpl; intros E; inversion E; reflexivity.
+Qed.
